@@ -114,7 +114,7 @@ def coq_check(pid, props_files, extract_file):
 # running driver and model
 # ----------------------------------------------------------------------------------------------
 CRASH_CAP = 40
-CHUNK = 10000
+CHUNK = 2000
 
 def _big_stack():
     import resource
